@@ -390,6 +390,7 @@ func TestC17Client(t *testing.T) {
 		steps := []scen.Step{{Op: "call", Calls: callers}, {Op: "await-requests", N: n}}
 		family := rapid.SampledFrom([]string{"errors", "errors", "migrate", "migrate-unconfigured"}).Draw(t, "family")
 		storageDown, otherMigrate, packedErr := false, false, false
+		chained := 0
 		order := scen.Permute(s, tags)
 		switch family {
 		case "errors":
@@ -448,8 +449,23 @@ func TestC17Client(t *testing.T) {
 			steps = append(steps, scen.Step{Op: "answer", Items: []scen.AnsItem{mig}})
 			if c.Configured {
 				steps = append(steps, scen.Step{Op: "await-requests", N: n}) // repeated at dc-7: again n unanswered
+				last := "dc-7"
+				if !storageDown && rapid.Bool().Draw(t, "chain") {
+					// the data centre the request was sent on to sends it on again (the account has moved once more, or back):
+					// every such answer is the same instruction, whichever server gives it
+					hops := rapid.IntRange(1, 3).Draw(t, "hops")
+					dcs := []int{7, 8, 6, 7}
+					sc.RPC.DCs = []int{7, 8, 6}
+					for h := 1; h <= hops; h++ {
+						steps = append(steps, scen.Step{Op: "answer", Server: last, Items: []scen.AnsItem{{Tag: c.Migrate, ErrCode: 303, ErrText: fmt.Sprintf("PHONE_MIGRATE_%d", dcs[h])}}},
+							scen.Step{Op: "await-requests", N: n})
+						last = fmt.Sprintf("dc-%d", dcs[h])
+						c.DC = dcs[h]
+					}
+					chained = hops
+				}
 				for _, tg := range order {
-					steps = append(steps, scen.Step{Op: "answer", Server: "dc-7", Items: []scen.AnsItem{{Tag: tg}}})
+					steps = append(steps, scen.Step{Op: "answer", Server: last, Items: []scen.AnsItem{{Tag: tg}}})
 				}
 			} else {
 				for _, tg := range order[1:] {
@@ -465,6 +481,9 @@ func TestC17Client(t *testing.T) {
 		cls := []string{"client:" + family, "client-verdict:" + verdict}
 		if len(sc.RPC.OtherClientDCs) > 0 {
 			cls = append(cls, "client:data-centre-known-to-another-client-only")
+		}
+		if chained > 0 {
+			cls = append(cls, "client:request-sent-on-by-the-data-centre-it-was-sent-to", fmt.Sprintf("client:migration-hops=%d", chained+1))
 		}
 		if storageDown {
 			cls = append(cls, "client:migrate-while-session-storage-fails")
